@@ -38,7 +38,9 @@ CONSTANTS Inst,        \* instances holding the same log key
           LiveRounds,      \* TRUE: MaxRounds bounds only the rounds that start with an empty pool
           CachePutFails,   \* TRUE: the (ignored) error of cachePut is explored
           CrashInCreate,   \* TRUE: CreateLog may be interrupted by a crash
-          IssuerEntries    \* entries whose chain has the (one, shared) issuer certificate
+          IssuerEntries,   \* entries whose chain has the (one, shared) issuer certificate
+          VerifyEdge,      \* TRUE: LoadLog authenticates the right edge against the lock checkpoint (the code); FALSE: weakened design
+          MaxTampers       \* bound on adversarial changes to object storage (C08); 0 = storage is left alone
 
 VARIABLES
     \* durable, shared
@@ -51,6 +53,7 @@ VARIABLES
     issuerKnown,   \* the in-memory set of issuers already uploaded or checked
     \* environment
     clk, faults, crashes, rounds,
+    tampers,       \* number of adversarial changes made to object storage so far
     \* submissions
     subs,
     \* history / observation (hidden by VIEW)
@@ -60,9 +63,9 @@ durable == <<lockVal, pubVal, objs, staging, cache, issuerObj>>
 volatile == <<pc, mem, held, pool, inSeq, cur, stopped, issuerKnown>>
 envv == <<clk, faults, crashes, rounds>>
 hist == <<lockHist, pubHist, acks, discardedEarly, cacheLost, act>>
-vars == <<durable, volatile, envv, subs, hist>>
+vars == <<durable, volatile, envv, subs, hist, tampers>>
 
-View == <<durable, volatile, envv, subs, cacheLost, lockHist, discardedEarly>>
+View == <<durable, volatile, envv, subs, cacheLost, lockHist, discardedEarly, tampers>>
 
 -----------------------------------------------------------------------------
 NoCp == [tree |-> <<>>, ts |-> -1]
@@ -74,9 +77,16 @@ B == {TRUE, FALSE}
 Span(t) == Pow(TW, IF t.k = "hash" THEN t.l ELSE 0)
 Obj(t, tree) == [t |-> t, c |-> SubSeq(tree, t.n * TW * Span(t) + 1, (t.n * TW + t.w) * Span(t))]
 Backed(tree, o) == \A t \in AllTiles(Len(tree)) : Obj(t, tree) \in o
+\* what a tampered object holds: bytes that render no leaf range of any tree
+BadLeaf == [e |-> "BAD", ts |-> -1]
+BadObj(t) == [t |-> t, c |-> <<BadLeaf>>]
+\* an upload replaces the bytes an adversary planted under that key (for an untampered
+\* key it only adds, so that a conflicting rewrite of an immutable object stays visible
+\* to ImmutableStable)
+PutObj(o, x) == {y \in o : ~(y.t = x.t /\ y.c = <<BadLeaf>>)} \cup {x}
 
 NoRound == [p |-> <<>>, tree |-> <<>>, ts |-> 0, old |-> 0, bundle |-> FALSE, todo |-> {}, failed |-> FALSE,
-            ok |-> FALSE, subs |-> {}]
+            ok |-> FALSE, subs |-> {}, badb |-> FALSE]
 
 Fault(o) == IF o THEN faults' = faults ELSE faults < MaxFaults /\ faults' = faults + 1
 
@@ -100,6 +110,7 @@ Init ==
     /\ subs = [s \in SubIds |-> NoSub]
     /\ lockHist = <<>> /\ pubHist = <<>> /\ acks = {} /\ discardedEarly = FALSE
     /\ cacheLost = [i \in Inst |-> FALSE] /\ act = <<"Init">>
+    /\ tampers = 0
 
 -----------------------------------------------------------------------------
 (* CreateLog: refuse if the lock store or the object store already has a   *)
@@ -163,7 +174,7 @@ LoadCompare(i) ==
             THEN LET b == CHOOSE b \in staging : b.tree = l IN
                  /\ pc' = [pc EXCEPT ![i] = "l.apply"]
                  /\ cur' = [cur EXCEPT ![i] = [NoRound EXCEPT !.tree = l, !.ts = mem[i].ts, !.old = b.old,
-                                                             !.todo = NewTiles(b.old, Len(l))]]
+                                                             !.todo = NewTiles(b.old, Len(l)), !.badb = b.bad]]
             ELSE pc' = [pc EXCEPT ![i] = "down"] /\ UNCHANGED cur
        ELSE pc' = [pc EXCEPT ![i] = "l.edge"] /\ UNCHANGED cur
     /\ act' = <<"LoadCompare", i>>
@@ -171,7 +182,9 @@ LoadCompare(i) ==
 
 LoadApply(i, t, a, o) ==
     /\ pc[i] = "l.apply" /\ t \in cur[i].todo /\ (o => a) /\ Fault(o)
-    /\ objs' = IF a THEN objs \cup {Obj(t, cur[i].tree)} ELSE objs
+    \* the bundle is applied as it is found: an altered bundle writes altered tiles
+    \* (the verifying read of the right edge that follows is what refuses them)
+    /\ objs' = IF a THEN PutObj(objs, IF cur[i].badb THEN BadObj(t) ELSE Obj(t, cur[i].tree)) ELSE objs
     /\ cur' = [cur EXCEPT ![i].todo = @ \ {t}, ![i].failed = @ \/ ~o]
     /\ act' = <<"LoadApply", i, t.k, t.l, t.n, t.w, a, o>>
     /\ UNCHANGED <<lockVal, pubVal, staging, cache, pc, mem, held, pool, inSeq, stopped, clk, crashes, rounds, subs, lockHist, pubHist, acks, discardedEarly, cacheLost, issuerObj, issuerKnown>>
@@ -183,13 +196,23 @@ LoadAwait(i) ==
     /\ UNCHANGED <<durable, mem, held, pool, inSeq, cur, stopped, envv, subs, lockHist, pubHist, acks, discardedEarly, cacheLost, issuerKnown>>
 
 \* read the right edge through a verifying reader, re-hash the right-most data tile
+\* (the names tile is not read back: the partial one is rebuilt from the data tile).
+\* VerifyEdge = FALSE is the deliberately weakened design "read the right edge
+\* without authenticating it against the lock checkpoint's root": whatever bytes are
+\* there become the in-memory tree.  TLC must refute it (MC_tamper_noverify.cfg).
+EdgeRead(n) == {t \in RightEdge(n) : t.k # "names"}
 LoadEdge(i) ==
     /\ pc[i] = "l.edge"
-    /\ LET ok == \A t \in RightEdge(Len(mem[i].tree)) : Obj(t, mem[i].tree) \in objs IN
-       pc' = [pc EXCEPT ![i] = IF ok THEN "idle" ELSE "down"]
+    /\ LET n == Len(mem[i].tree)
+           ok == \A t \in EdgeRead(n) : Obj(t, mem[i].tree) \in objs
+           present == \A t \in EdgeRead(n) : \E x \in objs : x.t = t
+       IN IF VerifyEdge \/ ok \/ ~present
+          THEN /\ pc' = [pc EXCEPT ![i] = IF ok THEN "idle" ELSE "down"] /\ UNCHANGED mem
+          ELSE /\ pc' = [pc EXCEPT ![i] = "idle"]
+               /\ mem' = [mem EXCEPT ![i].tree = [k \in 1..n |-> BadLeaf]]
     /\ cur' = [cur EXCEPT ![i] = NoRound]
     /\ act' = <<"LoadEdge", i>>
-    /\ UNCHANGED <<durable, mem, held, pool, inSeq, stopped, envv, subs, lockHist, pubHist, acks, discardedEarly, cacheLost, issuerKnown>>
+    /\ UNCHANGED <<durable, held, pool, inSeq, stopped, envv, subs, lockHist, pubHist, acks, discardedEarly, cacheLost, issuerKnown>>
 
 \* any read of LoadLog may fail
 LoadFault(i) ==
@@ -209,6 +232,7 @@ TreeRoom(i) == Len(mem[i].tree) + Len(pool[i]) + Len(cur[i].p) < MaxTree
 \* issuer cannot be stored is refused before it reaches the pool.
 IssuerEnsure(i, a, o) ==
     /\ Up(i) /\ ~issuerKnown[i] /\ IssuerEntries # {} /\ (o => a)
+    /\ issuerObj # "bad"     \* an existing object with other bytes: the submission is refused, nothing changes
     /\ IF issuerObj = "good"
        THEN a /\ o /\ UNCHANGED <<issuerObj, faults>>
        ELSE Fault(o) /\ issuerObj' = IF a THEN "good" ELSE issuerObj
@@ -305,7 +329,8 @@ TimeGuard(i, now) ==
 \* staging bundle upload: non-fatal on error (the pool fails)
 StageBundle(i, a, o) ==
     /\ pc[i] = "stage" /\ (o => a) /\ Fault(o)
-    /\ staging' = IF a THEN staging \cup {[tree |-> cur[i].tree, old |-> cur[i].old]} ELSE staging
+    /\ staging' = IF a THEN {b \in staging : b.tree # cur[i].tree} \cup {[tree |-> cur[i].tree, old |-> cur[i].old, bad |-> FALSE]}
+                      ELSE staging
     /\ cur' = [cur EXCEPT ![i].bundle = o]
     /\ pc' = [pc EXCEPT ![i] = IF o THEN "cas" ELSE "close"]
     /\ act' = <<"StageBundle", i, a, o>>
@@ -329,7 +354,7 @@ Cas(i, a, o) ==
 \* applyStagedUploads: the tile uploads run in parallel, in any order
 TileUpload(i, t, a, o) ==
     /\ pc[i] = "tiles" /\ t \in cur[i].todo /\ (o => a) /\ Fault(o)
-    /\ objs' = IF a THEN objs \cup {Obj(t, cur[i].tree)} ELSE objs
+    /\ objs' = IF a THEN PutObj(objs, Obj(t, cur[i].tree)) ELSE objs
     /\ cur' = [cur EXCEPT ![i].todo = @ \ {t}, ![i].failed = @ \/ ~o]
     /\ act' = <<"TileUpload", i, t.k, t.l, t.n, t.w, a, o>>
     /\ UNCHANGED <<lockVal, pubVal, staging, cache, pc, mem, held, pool, inSeq, stopped, clk, crashes, rounds, subs, lockHist, pubHist, acks, discardedEarly, cacheLost, issuerObj, issuerKnown>>
@@ -436,7 +461,44 @@ LoseCache(i) ==
     /\ act' = <<"LoseCache", i>>
     /\ UNCHANGED <<lockVal, pubVal, objs, staging, volatile, envv, subs, lockHist, pubHist, acks, discardedEarly, issuerObj>>
 
-Next ==
+(***************************************************************************)
+(* C08: the adversary owns object storage.  It can delete or alter any     *)
+(* object, at any moment (between or during runs), but cannot sign: the    *)
+(* only checkpoints it can plant are ones the log signed before.           *)
+(***************************************************************************)
+TamperBudget == tampers < MaxTampers /\ tampers' = tampers + 1
+TamperDelObj(x) ==
+    /\ TamperBudget /\ x \in objs /\ objs' = objs \ {x}
+    /\ act' = <<"TamperDel", x.t.k, x.t.l, x.t.n, x.t.w>>
+    /\ UNCHANGED <<lockVal, pubVal, staging, cache, issuerObj, volatile, envv, subs, lockHist, pubHist, acks, discardedEarly, cacheLost>>
+TamperBadObj(x) ==
+    /\ TamperBudget /\ x \in objs /\ x.c # <<BadLeaf>> /\ objs' = (objs \ {x}) \cup {BadObj(x.t)}
+    /\ act' = <<"TamperAlter", x.t.k, x.t.l, x.t.n, x.t.w>>
+    /\ UNCHANGED <<lockVal, pubVal, staging, cache, issuerObj, volatile, envv, subs, lockHist, pubHist, acks, discardedEarly, cacheLost>>
+\* delete the published checkpoint or roll it back to any checkpoint ever signed
+TamperPub(c) ==
+    /\ TamperBudget /\ c # pubVal /\ IsCp(pubVal)
+    /\ pubVal' = c
+    /\ act' = <<"TamperPub", Len(c.tree), c.ts>>
+    /\ UNCHANGED <<lockVal, objs, staging, cache, issuerObj, volatile, envv, subs, lockHist, pubHist, acks, discardedEarly, cacheLost>>
+TamperStaging(b, del) ==
+    /\ TamperBudget /\ b \in staging /\ (del \/ ~b.bad)
+    /\ staging' = IF del THEN staging \ {b} ELSE (staging \ {b}) \cup {[b EXCEPT !.bad = TRUE]}
+    /\ act' = <<"TamperStaging", Len(b.tree), del>>
+    /\ UNCHANGED <<lockVal, pubVal, objs, cache, issuerObj, volatile, envv, subs, lockHist, pubHist, acks, discardedEarly, cacheLost>>
+TamperIssuer(v) ==
+    /\ TamperBudget /\ issuerObj = "good" /\ v \in {"absent", "bad"}
+    /\ issuerObj' = v
+    /\ act' = <<"TamperIssuer", v>>
+    /\ UNCHANGED <<lockVal, pubVal, objs, staging, cache, volatile, envv, subs, lockHist, pubHist, acks, discardedEarly, cacheLost>>
+Signed == {lockHist[k] : k \in DOMAIN lockHist}
+TamperNext ==
+    \/ \E x \in objs : TamperDelObj(x) \/ TamperBadObj(x)
+    \/ \E c \in Signed \cup {NoCp} : TamperPub(c)
+    \/ \E b \in staging, del \in B : TamperStaging(b, del)
+    \/ \E v \in {"absent", "bad"} : TamperIssuer(v)
+
+LogNext ==
     \E i \in Inst :
        \/ CreateCheck(i) \/ LoadFetchLock(i) \/ LoadClockBehind(i) \/ LoadCompare(i) \/ LoadAwait(i)
        \/ LoadEdge(i) \/ LoadFault(i)
@@ -449,6 +511,8 @@ Next ==
        \/ \E a \in B : DiscardBundle(i, a) \/ CachePut(i, a)
        \/ \E a, o \in B : IssuerEnsure(i, a, o)
        \/ Crash(i) \/ LoseCache(i)
+
+Next == (LogNext /\ UNCHANGED tampers) \/ (MaxTampers > 0 /\ TamperNext)
 
 Spec == Init /\ [][Next]_vars
 
@@ -486,7 +550,7 @@ Recoverable ==
     (IsCp(lockVal) /\ IsCp(pubVal)) =>
         /\ Len(pubVal.tree) <= Len(lockVal.tree)
         /\ (Len(pubVal.tree) = Len(lockVal.tree) => pubVal.tree = lockVal.tree)
-        /\ (Len(pubVal.tree) < Len(lockVal.tree) => \E b \in staging : b.tree = lockVal.tree)
+        /\ (Len(pubVal.tree) < Len(lockVal.tree) => \E b \in staging : b.tree = lockVal.tree /\ ~b.bad)
 \* after a successful load every tile of the lock tree is in storage
 LoadedIsServable == \A i \in Inst : (pc[i] = "idle" /\ ~stopped[i] /\ held[i] = lockVal) => Backed(lockVal.tree, objs)
 
@@ -499,6 +563,18 @@ LeafTimes == IsCp(pubVal) => \A k \in DOMAIN pubVal.tree : pubVal.tree[k].ts <= 
 \* C06
 LoserStops == \A i \in Inst : pc[i] \in {"fatal", "fatal.clear"} => \A s \in cur[i].subs : subs[s].st # "acked"
 NoForkInLock == \A x, y \in DOMAIN lockHist : IsPrefix(lockHist[x].tree, lockHist[y].tree) \/ IsPrefix(lockHist[y].tree, lockHist[x].tree)
+
+\* C08: whatever happened to object storage, a checkpoint the log commits extends the
+\* committed tree by exactly the entries of the round being sequenced, stamped with
+\* the new tree-head time
+LockExtendsByRound ==
+    [][(lockVal' # lockVal /\ IsCp(lockVal)) =>
+          \E i \in Inst :
+             /\ pc[i] = "cas"
+             /\ lockVal'.tree = lockVal.tree \o [k \in DOMAIN cur[i].p |-> [e |-> cur[i].p[k], ts |-> lockVal'.ts]]
+             /\ lockVal'.ts > lockVal.ts]_vars
+\* an instance that is up and sequencing holds the tree that is committed, or loses the CAS
+UpHoldsCommitted == \A i \in Inst : (Up(i) /\ ~stopped[i] /\ held[i] = lockVal) => mem[i] = lockVal
 
 \* C07: a leaf per admitted submission, never more
 LeafCount ==
